@@ -658,8 +658,23 @@ class Models:
         en, v = a
         if isinstance(en, StructV) and en.variant == "Entry":
             c = en.fields["map"]
-            st.colls[c.seq] = st.colls.get(c.seq, ()) + ((list(st.pc), TupV([en.fields["key"], v]), st.exist,
-                                                          "entry-or-insert" + ("+and-modify" if isinstance(en.fields["modify"], FnV) else "")),)
+            how = "entry-or-insert"
+            f = en.fields["modify"]
+            if isinstance(f, FnV):
+                # what does the and_modify closure leave in an existing entry?  (last-write-wins iff the inserted value)
+                cell = (st.frame, "entry-cell#" + self.I.fresh("c"))
+                ty = v.ty if isinstance(v, IntV) else "u8"
+                st.env[cell] = IntV(Lin.atom(("sym", "existing-entry", ty)), ty) if isinstance(v, IntV) else Opaque("existing entry")
+                how = "entry-and-modify:other"
+                try:
+                    outs = self.I.apply_fn(st, f, [RefV(cell)], e)
+                    vals = [s2.env.get(cell) for s2, k2, r2 in outs if k2 == "val"]
+                    if vals and all(isinstance(x, IntV) and isinstance(v, IntV) and x.l == v.l for x in vals):
+                        how = "entry-and-modify:last-write-wins"
+                except Exception:
+                    pass
+                st.env.pop(cell, None)
+            st.colls[c.seq] = st.colls.get(c.seq, ()) + ((list(st.pc), TupV([en.fields["key"], v]), st.exist, how),)
             return [(st, "val", Opaque("&mut V"))]
         return None
 
